@@ -307,6 +307,24 @@ def trio_scenarios(emit):
     trio.run(main)
 
 
+def str_under_stdouts(st, uni):
+    """str(x) is the concatenation of format(), whatever sys.stdout happens to be"""
+    import io
+    saved = sys.stdout
+    ok = True
+    try:
+        for mk in (lambda: saved, io.StringIO, lambda: io.TextIOWrapper(io.BytesIO(), encoding="latin-1"), lambda: None):
+            sys.stdout = mk()
+            ok = ok and str(st) == "".join(uni)
+            for f in st.frames[:3]:
+                ok = ok and str(f) == "".join(f.format())
+                for c in f.contexts[:2]:
+                    ok = ok and str(c) == "".join(c.format())
+    finally:
+        sys.stdout = saved
+    return ok
+
+
 def render(label, st, out):
     conv = Conv()
     tree = conv.stack(st)
@@ -329,7 +347,7 @@ def render(label, st, out):
                     (st.error is not None and flat[len(expect):len(expect) + 1] == ["  Error while extracting stack:\n"]))
             r = {"ctx": sc, "hidden": sh, "uni": uni, "asc": asc, "flat_ok": flat_ok,
                  "summary": [[e.filename, e.lineno, e.name] for e in summ],
-                 "str_is_join": (str(st) == "".join(uni)) if (sc and not sh) else True}
+                 "str_is_join": str_under_stdouts(st, uni) if (sc and not sh) else True}
             case["renderings"].append(r)
     case["frame_attrs"] = {str(i): [f.filename, f.lineno, f.funcname, f.linetext] for i, f in conv.frames.items()}
     case["ctx_lines"] = {str(i): c.start_line for i, c in conv.ctxs.items()}
